@@ -83,6 +83,12 @@ Proof.
   apply find_dense_aux. intros e Hin. now apply (hc_nil i e W H).
 Qed.
 
+Theorem dim_of_iindex_spec N i : is1d N i ->
+  dim_wf N (dim_of_iindex i) /\ forall r, dim_dense (dim_of_iindex i) r = dense i r [].
+Proof.
+  intros I. split; [now apply dim_of_iindex_wf|]. destruct I as (W & _ & H). intros r. now apply dim_of_iindex_dense.
+Qed.
+
 Lemma is1d_shift N i v : is1d N i -> is1d N (shift_common i v).
 Proof.
   intros (W & HN & H). destruct (shift_common_shape i v) as [E1 E2]. split; [|split].
